@@ -6,14 +6,16 @@ import arch, kernel
 
 COQ_PROPS = 'props/C07.v'
 PARTIAL = ('proved, for every frozen archive / every history (no size bound): (1) JSON and XML decode(encode f) = f up to the explicit '
-           'representation changes (JSON: complex pair becomes a list; XML: label "" -> None, complex pair a tuple, component names '
+           'representation changes (JSON: complex pair read as a tuple; XML: label "" -> None, complex pair a tuple, component names '
            'recomputed) -- C07_codec_json / C07_codec_xml; (2) _thaw in a fresh context restores every archived leaf attribute (label, u, df, '
            'independent, correlation, ensemble; complex = archived or the tuple set for a tagged complex) and every intermediate node record '
            '-- C07_restore_registries; (3) end to end freeze -> {pickle, JSON, XML} -> thaw in ANY session where the load succeeds: a tagged '
            'intermediate real has identical x, u-/d-component vectors, uid and its i-components w.r.t. exactly the archived intermediates; a '
-           'tagged elementary real has identical x, uid and is seeded from the registered leaf -- C07_restore_intermediate / _elementary. '
-           'Refuted with concrete witnesses replayed on the implementation (known findings): JSON complex-as-list (dof AssertionError), XML '
-           'label "" -> None, NaN-dof intermediate not reloadable in the writing session. NOT proved, validated by the bit-exact '
+           'tagged elementary real has identical x, uid and is seeded from the registered leaf -- C07_restore_intermediate / _elementary; '
+           '(4) since fixes C07-json-complex-list / C07-nan-dof-same-session: an archive frozen in a session comes back from JSON exactly and '
+           'a JSON load equals the pickle load for every session / archive / reading session (C07_codec_json_exact, C07_json_like_pickle), '
+           'and node records re-attach in the writing session whatever their dof (C07_nodes_reattach). '
+           'Refuted with a concrete witness replayed on the implementation (known finding): XML label "" -> None. NOT proved, validated by the bit-exact '
            'correspondence and the original-vs-restored differential only: that the load succeeds under the session invariants; components of '
            'tagged complex numbers end to end; congruence of the reports (variance, covariance, dof, budgets) of continued calculations over '
            'equal leaf tables; same-session re-attachment; the legacy (pre-1.5) JSON reader; pickle itself; Node.complex of intermediate '
@@ -340,35 +342,9 @@ def _norm_json(v):
     return v
 
 def explained(fmt, where, flags, want, got):
-    """which known finding (if any) accounts for EVERY difference between the two observation sets"""
-    if fmt in ('json', 'legacy') and flags['untagged_complex_leaf']:
-        # result() evaluates the dof of what it declares: where that now fails with AssertionError the observations
-        # made after that declaration do not exist
-        # (and the later declarations draw from a different pool of declared numbers)
-        AE = 'EXC:AssertionError'
-        dead_d = [int(k[4:]) for k, v in got.items() if re.fullmatch(r'decl\d+', k) and v == AE and want.get(k) != v]
-        dead_a = [int(k[5:]) for k, v in got.items() if re.fullmatch(r'after\d+', k) and v == AE and want.get(k) != v]
-        first = min(dead_d + dead_a) if dead_d + dead_a else None
-        def skip(k):
-            m = re.match(r'(decl|after)(\d+)(.*)', k)
-            if not m or first is None: return False
-            j = int(m.group(2))
-            if j > first: return True
-            if j < first: return False
-            if first in dead_d: return m.group(1) == 'after'
-            return m.group(1) == 'after' and m.group(3) != ''
-        if set(k for k in want if not skip(k)) != set(k for k in got if not skip(k)): return None
-        got = {k: v for k, v in got.items() if not skip(k)}
-        bad = [k for k in got if want[k] != got[k]]
-        def ok(k):
-            w, g = _norm_json(want[k]), _norm_json(got[k])
-            if w == g: return True
-            if re.fullmatch(r'(decl|after)\d+', k) and g == 'EXC:AssertionError': return True
-            # a dof evaluation that now fails with AssertionError (welch_satterthwaite / willink_hall)
-            if isinstance(g, (list, tuple)) and isinstance(w, (list, tuple)) and len(g) == len(w) and len(g) >= 3:
-                return all(a == b or (i == 2 and b == 'EXC:AssertionError') for i, (a, b) in enumerate(zip(w, g)))
-            return False
-        if all(ok(k) for k in bad): return 'C07-json-complex-list'
+    """which known finding (if any) accounts for EVERY difference between the two observation sets.
+    (C07-json-complex-list and C07-nan-dof-same-session are FIXED: nothing excuses a list-valued complex pairing, an
+    AssertionError from a dof evaluation or a refused same-session reload any more -- they are violations again.)"""
     if want.keys() != got.keys(): return None
     bad = [k for k in want if want[k] != got[k]]
     if fmt == 'xml' and flags['empty_label']:
@@ -415,8 +391,7 @@ def diff_one(seed, ctx_id, fmt, via, where, focus=False):
     except Exception as ex:
         rec['raised_on_load'] = repr(ex)
         if where == 'same' and isinstance(ex, RuntimeError) and 'use' in str(ex):
-            if flags['nan_df_intermediate'] and 'df=nan' in str(ex): rec['explained_by'] = 'C07-nan-dof-same-session'
-            elif fmt == 'xml' and flags['empty_label']: rec['explained_by'] = 'C07-xml-empty-label'
+            if fmt == 'xml' and flags['empty_label'] and 'df=nan' not in str(ex): rec['explained_by'] = 'C07-xml-empty-label'
         return rec, 0
     got = arch.observe(restored, cont_seed)
     if where == 'same':
@@ -435,12 +410,10 @@ def diff_one(seed, ctx_id, fmt, via, where, focus=False):
     return None, len(want)
 
 def is_known(f):
-    """a failing input is a known finding iff one of them accounts for every observed difference:
-    C07-json-complex-list (JSON / legacy JSON, a leaf with a complex pairing whose complex number is not tagged; differences
-    are only list-vs-tuple uids in budgets and AssertionError in dof), C07-xml-empty-label (XML, some label is ''; differences
-    are only ''/None labels or the same-session 'uid in use' RuntimeError), C07-nan-dof-same-session (same-session load of an
-    intermediate whose dof is NaN)."""
-    return isinstance(f, dict) and f.get('explained_by') in ('C07-json-complex-list', 'C07-xml-empty-label', 'C07-nan-dof-same-session')
+    """a failing input is the known finding C07-xml-empty-label iff it accounts for every observed difference (XML, some
+    label is ''; differences are only ''/None labels, the labels budgets derive from them, or the same-session 'uid in
+    use' RuntimeError).  The fixed findings are never 'known'."""
+    return isinstance(f, dict) and f.get('explained_by') == 'C07-xml-empty-label'
 
 WHERES = ['fresh', 'fresh_lo', 'same']
 ALLFORMATS = ['pickle', 'json', 'xml', 'legacy']
